@@ -66,6 +66,12 @@ type Runner struct {
 	Trace  []StepTrace
 	Dead   bool // the DB object is unusable (after a panic that may have left the lock held)
 	Closed bool // the DB was closed by a close step (calls on a closed database are part of C20)
+	// ND is set when the run passed one of the two places where nutsdb follows
+	// Go's randomised map iteration order, which no seam controls: SPop on a set
+	// with more than one member, and a sparse-mode commit that rotates two or
+	// more segments (order of the index files it writes).  Verdicts do not
+	// depend on it (the model follows SPop's choice); event logs may.
+	ND     bool
 	Opened bool
 
 	Probes map[string]int
@@ -245,7 +251,11 @@ func (r *Runner) Run() {
 			break
 		}
 		r.W.BeginStep(st.ID)
+		truncs := r.W.Stats.IOByKind["trunc"]
 		r.step(st)
+		if r.P.Cfg.IdxMode == 2 && r.W.Stats.IOByKind["trunc"]-truncs >= 2 {
+			r.ND = true
+		}
 		r.W.EndStep()
 		if r.Opt.ObserveEvery || r.Opt.ObserveAt[st.ID] {
 			r.observeAndJudge(st.ID, "after "+st.K)
@@ -298,6 +308,9 @@ func (r *Runner) txStep(st *prog.Step, tr *StepTrace) {
 		handle = tx
 		for i, op := range st.Ops {
 			now := r.W.Clock.Unix()
+			if op.K == "spop" && (r.Opt.NoModel || len(r.M.Set[op.B][op.Key]) > 1) {
+				r.ND = true
+			}
 			got := Do(tx, op)
 			tr.Res = append(tr.Res, got)
 			if got.Panic != "" {
